@@ -26,7 +26,7 @@ let show_state s nnew nscr =
     (match s.pend with None -> "-" | Some (i, _) -> string_of_int (int_of_nat i))
     (String.concat ";" (List.map show_tracker s.trs))
     (String.concat "," (List.map show_req (List.rev (take nnew s.log))))
-    (String.concat "," (List.map (fun (_, i) -> string_of_int (int_of_nat i)) (List.rev (take nscr s.slog))))
+    (String.concat "," (List.map (fun (_, t) -> string_of_int (int_of_nat t.t_id)) (List.rev (take nscr s.slog))))
 
 exception Badop
 
